@@ -518,6 +518,7 @@ pub fn replay(path: &str, j: &J, quiet: bool) -> i32 {
     }
     let r = run_once(&mut w, &plan, true);
     if !quiet {
+        println!("  counters: {}", r.counters.to_json().to_string());
         println!("  schedule: {:?}", r.decisions);
         for l in &r.log {
             println!("  {}", l);
